@@ -85,6 +85,12 @@ CLAIMED = {
          "Trusted: go/ssa, symgo, z3, the 60-line JSON string decoder. Outside: JSON -> expression (encoding/json), floats, "
          "BuildCallSource end to end, per-fork invocation files.",
          "DESIGN.md §4 C16"),
+ "C10": ("Partial (order-independence of the emitters): every range over a Go map in the executed code picks an arbitrary permutation "
+         "(engine-level nondeterminism); map expressions, binding maps, argument maps, metadata listings and job-script environment blocks with "
+         "2-3 distinct symbolic keys are emitted twice and the solver shows the two outputs are byte-identical on every pair of orders.",
+         "Trusted: go/ssa, symgo (map-order model), z3. Outside: whole-pipeline Format/MakeCallGraph identity, error-message order, fork id "
+         "enumeration, cross-process repetition.",
+         "DESIGN.md §4 C10"),
  "C11": ("Map keys of up to 3 (thorough 4) arbitrary bytes, array indices < 1000 and every journal file name built from "
          "(node, fork, chunk?, 10-hex uniquifier?, prefix, state) are symbolic; the real makeKeySafe/url.PathEscape, forkString, "
          "ForkIdString, encodeJournalName, parseRunFilename (regex run by a symbolic Pike VM over Go's own compiled program), "
